@@ -12,8 +12,11 @@ Two parts.
 2. **Denotation**: `denote : FrontOp → List LibOp` — the library calls a front-end operation
    performs, in order — and a small contents semantics of those calls (`step`, `run`): the
    shared operation log, commit = fold of the log over the committed map, the failure mode of
-   a writer session (`add_document` fails ⇒ the CLI stops, the HTTP handler rolls the log
-   back, the FFI skips its commit).
+   a writer session (`add_document` fails ⇒ the CLI stops, the FFI skips its commit; the HTTP
+   handlers queue a request's documents as one unit with `IndexWriter::add_documents`, which
+   validates them all first, so a rejected batch queues nothing and leaves earlier queued
+   operations alone — 69e89dd.  `denoteLegacy` keeps the handlers before that commit, which
+   added one by one and on a failure rolled the *whole* log back).
 
 Text that is *parsed* (`--sort`, `--execution`, `--fields`) is a `List Char`; text that is
 only passed on (query string, cursor, highlight field) is an opaque `String`.
@@ -243,9 +246,10 @@ inductive LibOp (κ δ : Type)
   | openIdx (create : Bool)      -- `Index::open(opts)` with `create_if_missing`
   | newWriter                    -- `index.writer()`
   | add (d : δ)                  -- `writer.add_document(&d)`
+  | addBatch (docs : List δ)     -- `writer.add_documents(&docs)`: all or nothing
   | delete (ids : List κ)        -- `writer.delete_documents(&ids)`
   | commit                       -- `writer.commit()`
-  | rollbackIfFailed             -- `writer.rollback()` in the `Err` branch of an add
+  | rollbackIfFailed             -- `writer.rollback()` in the `Err` branch of an add (legacy HTTP)
   | dropWriter
   | compact                      -- `index.compact()`
   | refresh                      -- `index.reader()` (result dropped)
@@ -270,9 +274,8 @@ def denote {κ δ : Type} : FrontOp κ δ → List (LibOp κ δ)
   | .cliCommit => [.openIdx false, .newWriter, .commit, .dropWriter]
   | .cliCompact => [.openIdx false, .compact]
   | .httpInit => [.createIdx]
-  | .httpAdd docs =>
-    if docs.isEmpty then [] else [.newWriter] ++ docs.map .add ++ [.rollbackIfFailed, .dropWriter]
-  | .httpBulk docs => [.newWriter] ++ docs.map .add ++ [.rollbackIfFailed, .dropWriter]
+  | .httpAdd docs => if docs.isEmpty then [] else [.newWriter, .addBatch docs, .dropWriter]
+  | .httpBulk docs => [.newWriter, .addBatch docs, .dropWriter]
   | .httpDelete ids => [.newWriter, .delete ids, .dropWriter]
   | .httpCommit refresh => [.newWriter, .commit] ++ (if refresh then [.refresh] else []) ++ [.dropWriter]
   | .httpCompact => [.compact]
@@ -280,6 +283,14 @@ def denote {κ δ : Type} : FrontOp κ δ → List (LibOp κ δ)
   | .ffiOpen => [.openIdx true]
   | .ffiAdd d => [.newWriter, .add d, .commit, .dropWriter]
   | .ffiCommit => [.newWriter, .commit, .dropWriter]
+
+/-- the front ends before 69e89dd: HTTP `/add` and `/bulk` added document by document and
+called `writer.rollback()` (which truncates the whole log) when one was rejected -/
+def denoteLegacy {κ δ : Type} : FrontOp κ δ → List (LibOp κ δ)
+  | .httpAdd docs =>
+    if docs.isEmpty then [] else [.newWriter] ++ docs.map .add ++ [.rollbackIfFailed, .dropWriter]
+  | .httpBulk docs => [.newWriter] ++ docs.map .add ++ [.rollbackIfFailed, .dropWriter]
+  | op => denote op
 
 /-- one entry of the shared operation log -/
 inductive LogOp (κ δ : Type)
@@ -324,6 +335,11 @@ def step (idOf : δ → Option κ) (s : St κ δ) : LibOp κ δ → St κ δ
     else match idOf d with
       | none => { s with failed := true }
       | some id => { s with log := s.log ++ [.put id d] }
+  | .addBatch docs =>
+    if s.failed then s
+    else if docs.all (fun d => (idOf d).isSome) then
+      { s with log := s.log ++ docs.filterMap (fun d => (idOf d).map (fun id => .put id d)) }
+    else { s with failed := true }
   | .delete ids => if s.failed then s else { s with log := s.log ++ ids.map .del }
   | .commit => if s.failed then s else { s with committed := applyLog s.log s.committed, log := [] }
   | .rollbackIfFailed => if s.failed then { s with log := [] } else s
